@@ -114,6 +114,7 @@ BODY_OP = '''        import os
                 "node": {r[0]: r for r in db.execute("SELECT i, kind, label, creator, detached FROM node").fetchall()},
                 "file": {r[0]: r for r in db.execute("SELECT node, state, hash FROM file").fetchall()},
                 "step": {r[0]: r for r in db.execute("SELECT node, state, deferred, _has_hash, _holding FROM step").fetchall()},
+                "res": db.execute("SELECT node, name, units FROM step_resource").fetchall(),
                 "dep": db.execute("SELECT dependency.i, source, sink, dynamic_dep.i IS NOT NULL FROM dependency LEFT JOIN dynamic_dep ON dynamic_dep.i = dependency.i").fetchall(),
             }
         async with db:
@@ -133,10 +134,13 @@ BODY_OP = '''        import os
                     cause = HashUpdateCause[op.split("(")[1].rstrip(")")]
                     fh = known if margs["m.known"] else FileHash.unknown()
                     wf.update_file_hashes({lab(margs["m.file"]): fh}, cause=cause)
-                elif op == "try_recycle(Step)":
+                elif op.startswith("try_recycle(Step"):
                     Step.can_recycle = lambda self, **kw: True
                     Step.adjust_label = classmethod(lambda cls, label, **kw: label)
-                    if wf.try_recycle(Step, node(margs["m.creator"]), lab(margs["m.step"])) is None:
+                    kw = {}
+                    if "resources" in op:
+                        kw["resources"] = {"p": margs["m.flag"]} if margs["m.flag"] else None
+                    if wf.try_recycle(Step, node(margs["m.creator"]), lab(margs["m.step"]), **kw) is None:
                         return 2
                 elif op == "create(recycle)":
                     wf.create(File, node(margs["m.creator"]), lab(margs["m.file"]), state=FileState(margs["m.newstate"]))
@@ -163,7 +167,7 @@ BODY_OP = '''        import os
             print("judge:", extra)
             if extra and extra[0] == "precondition":
                 return 2
-            return 1 if extra else 0
+            return 1 if (extra or after or cc) else 0
         return 1 if (after or cc) else 0
 '''
 
@@ -395,9 +399,22 @@ def operations():
             run.assume(z3.BoolVal(False))
         Step.can_recycle = lambda self, **kw: True
         Step.adjust_label = classmethod(lambda cls, label, **kw: label)
-        aux["got"] = w.try_recycle(Step, c, label)
+        kwargs = {}
+        if aux.get("with_resources"):
+            u = z3.Int("m.flag")
+            run.assume(z3.And(u >= 0, u <= 2))
+            units = next(x for x in (0, 1, 2) if run.decide_bool(u == x))
+            kwargs["resources"] = {"p": units} if units else None
+            aux["resources"] = kwargs["resources"]
+        aux["got"] = w.try_recycle(Step, c, label, **kwargs)
 
     OPS["try_recycle(Step)"] = try_recycle
+
+    def try_recycle_res(wf, w, s, run, aux):
+        aux["with_resources"] = True
+        try_recycle(wf, w, s, run, aux)
+
+    OPS["try_recycle(Step, resources)"] = try_recycle_res
     return OPS
 
 
@@ -460,7 +477,7 @@ def _encoded():
     ]
 
 
-HEAVY = ("delete_detached", "create(recycle)", "try_recycle(Step)", "update_file_hashes(EXTERNAL)", "update_file_hashes(FAILED)")
+HEAVY = ("delete_detached", "create(recycle)", "try_recycle(Step)", "try_recycle(Step, resources)", "update_file_hashes(EXTERNAL)", "update_file_hashes(FAILED)")
 
 
 def bounds_for(name, tier):
@@ -474,8 +491,9 @@ def bounds_for(name, tier):
         K, D = (4, 3) if tier == "quick" else (5, 4)
     elif name == "delete_detached":
         # every deleted node's label is looked at (parent directory, working directory): 2 labels quick
-        K, D = (4, 1) if tier == "quick" else (4, 2)
-        labels = ["a", "d/x"] if tier == "quick" else LABELS
+        # measured: K=3/D=1 384 paths, K=4/D=1 10279 paths (2 labels)
+        K, D = (3, 1) if tier == "quick" else (4, 1)
+        labels = ["a", "d/x"]
     elif name in HEAVY:
         K, D = (4, 1) if tier == "quick" else (4, 2)
     else:
@@ -521,7 +539,7 @@ def explore_op(res, oid, name, tier, post, what, judge_src=None, extra_pre=None,
         body = f"        op = {name!r}\n        margs = {margs!r}\n        LABELS = {LABELS!r}\n" + CHECKER + (judge_src or "        JUDGE = None\n") + BODY_OP
         _replay_generic(res, oid, key or f"{oid}:{name}", content, body, f"{name}: {what}")
 
-    c = _explore(res, name, K, D, pre, action, post, on_violation=viol, lazy_enums=True, max_paths=max_paths or (3000 if tier == "quick" else 30000), allow_integrity=True, labels=labels)
+    c = _explore(res, name, K, D, pre, action, post, on_violation=viol, lazy_enums=True, internal_error_violates=True, max_paths=max_paths or (3000 if tier == "quick" else 30000), allow_integrity=True, labels=labels)
     res.twin("operation paths explored", "sat" if c["paths"] >= 1 else "unsat", 0.0)
     res.nontrivial = len(res.queries)
     return res
